@@ -101,20 +101,24 @@ class Linspace(Arange):
 
     def _layer(self) -> dict:
         dsk = {}
-        blockstart = self.start
-        func = partial(_linspace, endpoint=self.endpoint, dtype=self.dtype)
+        offset = 0
+        num = self.num_rows
+        func = partial(_linspace, dtype=self.dtype)
 
         for i, bs in enumerate(self.chunks[0]):
-            bs_space = bs - 1 if self.endpoint else bs
-            blockstop = blockstart + (bs_space * self.step)
+            # as in dask.array.creation.linspace: every block evaluates
+            # ``start + step * index``, the very last sample is ``stop`` itself
+            last = self.endpoint and num > 1 and bs > 0 and offset + bs == num
             task = Task(
                 (self._name, i),
                 func,
-                blockstart,
-                blockstop,
+                self.start,
+                self.step,
+                offset,
                 bs,
+                self.stop if last else None,
             )
-            blockstart = blockstart + (self.step * bs)
+            offset += bs
             dsk[task.key] = task
         return dsk
 
